@@ -437,7 +437,10 @@ LeaseSemantics ==
 View      == facts
 HistBound == Len(hist) < MaxHist
 \* one behaviour per transition of the (view-reduced) state graph
+\* one behaviour per transition of the (view-reduced) state graph; the Pre variant also carries the
+\* observation expected BEFORE the last step (needed by the fault enumeration of C10)
 EmitStep  == PrintT(<<"TRACE", ToJson([g |-> g, mat |-> Mat, steps |-> hist', exp |-> Obs'])>>)
+EmitStepPre == PrintT(<<"TRACE", ToJson([g |-> g, mat |-> Mat, steps |-> hist', pre |-> Obs, exp |-> Obs'])>>)
 \* simulation: print the behaviour when it reaches full length
 EmitFull  == (Len(hist) >= MaxHist) => PrintT(<<"TRACE", ToJson([g |-> g, mat |-> Mat, steps |-> hist])>>)
 =============================================================================
